@@ -113,6 +113,36 @@ pub fn select_best_quality_idx(conns: &[crate::connection::SrtlaConnection]) -> 
     best_idx
 }
 
+/// [`select_best_quality_idx`] restricted to links the scheduler itself would
+/// use at `now_ms`: not timed out and not stall-gated (on top of connected and
+/// schedulable). The best-path override must not move must-land traffic onto a
+/// link that selection has just excluded as dead or black-holed, however good
+/// its (possibly stale) cached quality looks.
+pub fn select_best_quality_eligible_idx(
+    conns: &[crate::connection::SrtlaConnection],
+    now_ms: u64,
+) -> Option<usize> {
+    let mut best_idx = None;
+    let mut best_quality = f64::NEG_INFINITY;
+
+    for (i, conn) in conns.iter().enumerate() {
+        if !conn.connected
+            || !conn.is_schedulable()
+            || conn.is_timed_out(now_ms)
+            || conn.is_stall_gated()
+        {
+            continue;
+        }
+        let q = conn.quality_cache.multiplier;
+        if q > best_quality {
+            best_quality = q;
+            best_idx = Some(i);
+        }
+    }
+
+    best_idx
+}
+
 #[cfg(test)]
 mod tests {
     use super::*;
